@@ -50,7 +50,7 @@ func (Scenario) Generate(rng *rand.Rand, focus, tier string) kernel.Plan {
 		"users":       2 + rng.Int63n(2),
 		"vals":        rng.Int63n(3),
 		"rev_off":     rng.Int63n(5),
-		"weird_names": kernel.B2I(focus == "C19" || kernel.Chance(rng, 0.25)),
+		"weird_names": kernel.B2I(focus == "C19" || kernel.Chance(rng, 0.25)) * (1 + kernel.B2I(kernel.Chance(rng, 0.3))),
 		"name_off":    rng.Int63n(20),
 		"delay_s":     kernel.B2I(focus == "C07" || kernel.Chance(rng, 0.2)) * (1 + rng.Int63n(20)),
 		"tss":         kernel.B2I(focus == "C06" || kernel.Chance(rng, 0.4)),
